@@ -522,7 +522,8 @@ def rule_rhoend_single_source(eng, rep, rule="C18-5.one-source-of-truth-for-the-
                 break
             s2 = cfg.ast_of(cur)
             if cfg.kind(cur) == "stmt" and isinstance(s2, ast.Assign) and isinstance(s2.value, ast.Call):
-                tg = [t.fid for t in eng.res.calls[id(s2.value)].targets]
+                from .common import effective_target_fids
+                tg = sorted(effective_target_fids(eng, s2.value))        # (a thin wrapper around soft_restart counts as the call)
                 if any(f in field_rescale for f in tg):
                     pre = (cur, [f for f in tg if f in field_rescale][0])
                     break
@@ -553,7 +554,8 @@ def rule_rhoend_single_source(eng, rep, rule="C18-5.one-source-of-truth-for-the-
     # every success of a mirroring method in solve_main is followed by exactly one local rescaling (lock-step in the other direction)
     for mfid in field_rescale:
         for ci in eng.calls_in(sm):
-            if not any(t.fid == mfid for t in ci.targets):
+            from .common import effective_target_fids
+            if mfid not in effective_target_fids(eng, ci.node):
                 continue
             cn = cfg.cfg_node(ci.node)
             heads = [h for (h, k, s) in cfg.loops if k == "while"]
